@@ -42,6 +42,7 @@ impl Qibla {
         let x = f64::from(coords.longitude).to_radians() - Self::KAABA_LONGITUDE.to_radians();
         let y = lat_rads.cos() * Self::KAABA_LATITUDE.to_radians().tan() - lat_rads.sin() * x.cos();
         let degrees = x.sin().atan2(y).to_degrees();
+        let degrees = if degrees == -180. { 180. } else { degrees };
         Self { coords, degrees }
     }
 
